@@ -281,6 +281,9 @@ def history (udp : Bool) (ops : List String) (segs : List String) : Option (List
           | ["ret", c, err] =>
             let c ← c.toNat?
             hist := hist ++ [.retErr c err]
+          | ["dflt", tok, tag] =>
+            -- (an unmatched Reset reaches the default handler too: no token, no content, not a response)
+            if tok != "-" && tok != "" then hist := hist ++ [.other (← parseHex? tok) (if tag == "-" then "" else tag)]
           | _ => pure ()
       if !nowait then hist := hist ++ [.idle]
   return hist
